@@ -69,7 +69,7 @@ pub fn run(args: &Args) -> Out {
         run_case(seed, idx, thorough, &mut out);
         return out;
     }
-    let n = args.n(16_000, 640_000);
+    let n = args.n(80_000, 640_000);
     for idx in 0..n {
         if !args.mine(idx) {
             continue;
